@@ -68,6 +68,17 @@ a parsed value marshalled by its structure (`Joined` / `Ordered`, `Point` / `Bet
 a key: seeded change C14-f). -/
 theorem payload_value_forms : valueFormReport = [] := by decide
 
+/-- **Every payload value has one of the five kinds the encoding model covers** (generated table):
+string, `[]string`, bool, integer, `[]byte` (`Gts.KeyEnc.Kind`) — so `encodePayload_injective` below
+speaks about the payloads of all nineteen commands.  (A `float64`, a map or a struct handed to
+`encodePayload` is outside the model and shows up here.) -/
+theorem payload_value_kinds : valueKindReport = [] := by decide
+
+/-- the kinds that occur, e.g. `gts infix`: strings, a digest, a bool, the file type -/
+example : (commands.find? (·.name == "infix")).map (fun c => c.payload.map fun t => (t.key, valueKind c t)) =
+    some [("command", some .str), ("version", some .str), ("locator", some .str), ("host", some .bytes),
+      ("embed", some .bool), ("filetype", some .int)] := by decide
+
 /-- **No payload variable is re-ordered or overwritten in place** anywhere in its command
 (generated table: no use of a declared variable that reaches the payload sits in `sort.*`, `copy`,
 …): the key describes what the command line said (seeded change C14-e: sorting the locators of
